@@ -57,7 +57,7 @@ def make_units(tier):
                         bound = 1
                     elif tier == 'thorough':
                         # sized to finish within the budget on 16 cores: bound 2 for the base variant at fs None/64
-                        bound = 2 if (variant == 0 and fs != 97) else 1
+                        bound = 2 if (variant == 0 and fs != 97 and flavour == 'tcp') else 1
                     elif n % 53 == 0:
                         bound = 2
                     K = 1 if bound == 1 else 16
